@@ -22,12 +22,14 @@ import re
 import shutil
 import sys
 import tempfile
+import textwrap
+import zlib
 from fractions import Fraction
 
 _INT = re.compile(r"^-?[0-9]+$")
 _NAT = re.compile(r"^[0-9]+$")
 _LOADED = re.compile(r"^\d+_-?\d+_(vars|__init__)$")
-VTS = ("float", "int", "bool", "date")
+VTS = ("float", "int", "bool", "date", "enum", "str")
 DPS = ("month", "year", "eternity")
 SIS = ("dispatch", "divide")
 CD_FIELDS = ("name", "vt", "default", "entity", "dp", "end", "si", "formulas")
@@ -57,8 +59,14 @@ def _opt_int(tok):
 
 def parse_classdef(tok):
     f = tok.split(":")
-    if len(f) != 8 or f[0] == "":
+    if len(f) not in (8, 9) or f[0] == "":
         return None
+    meta = None
+    if len(f) == 9:
+        try:
+            meta = unhexjson(f[8])
+        except Exception:
+            meta = None
     ok, end = _opt_int(f[5])
     if not ok:
         return None
@@ -70,13 +78,14 @@ def parse_classdef(tok):
                 return None
             fs.append((int(g[0]), int(g[1])))
     return {"name": f[0], "vt": _opt(f[1]), "default": _opt(f[2]), "entity": _opt(f[3]), "dp": _opt(f[4]),
-            "end": end, "si": _opt(f[6]), "formulas": fs}
+            "end": end, "si": _opt(f[6]), "formulas": fs, **({"meta": meta} if meta else {})}
 
 
 def fmt_classdef(cd) -> str:
     fs = ",".join(f"{d}>{n}" for d, n in cd["formulas"]) or "-"
     t = lambda x: "-" if x is None else str(x)
-    return ":".join([cd["name"], t(cd["vt"]), t(cd["default"]), t(cd["entity"]), t(cd["dp"]), t(cd["end"]), t(cd["si"]), fs])
+    return ":".join([cd["name"], t(cd["vt"]), t(cd["default"]), t(cd["entity"]), t(cd["dp"]), t(cd["end"]), t(cd["si"]), fs]
+                    + ([hexjson(cd["meta"])] if cd.get("meta") else []))
 
 
 def parse_pupd(tok):
@@ -232,9 +241,30 @@ def fmt_line(spec) -> str:
 # values
 
 
+_ENUM = None
+
+
+def ofv_enum():
+    """the enumeration of the generated Enum variables"""
+    global _ENUM
+    if _ENUM is None:
+        from openfisca_core.indexed_enums import Enum
+
+        class OfvEnum(Enum):
+            a = "first"
+            b = "second"
+            c = "third"
+        _ENUM = OfvEnum
+    return _ENUM
+
+
 def tok_of_value(v) -> str:
     """canonical token of a default value / a computed cell"""
     import numpy
+    if _ENUM is not None and isinstance(v, _ENUM):
+        return "E" + v.name
+    if isinstance(v, (str, numpy.str_)):
+        return "S" + str(v)
     if isinstance(v, (bool, numpy.bool_)):
         return "T" if v else "F"
     if isinstance(v, dt.date):
@@ -254,6 +284,10 @@ def value_of_tok(tok):
         return False
     if tok.startswith("d"):
         return dt.date.fromordinal(int(tok[1:]))
+    if tok.startswith("E"):
+        return ofv_enum()[tok[1:]]
+    if tok.startswith("S"):
+        return tok[1:]
     if "/" in tok:
         p, q = tok.split("/")
         return int(p) / int(q)
@@ -262,6 +296,15 @@ def value_of_tok(tok):
 
 def type_default_tok(vt) -> str:
     return {"bool": "F", "int": "0", "float": "0", "date": "d719163"}[vt]
+
+
+def uses_params(e) -> bool:
+    return e[0] == "p" or any(uses_params(x) for x in e[1:] if isinstance(x, list))
+
+
+def two_args(e, fid) -> bool:
+    """which formulas are written `formula(entity, period)`: those that read no parameter, every other one"""
+    return fid % 2 == 1 and not uses_params(e)
 
 
 def formula_attr_names(formulas):
@@ -336,6 +379,22 @@ def _publish(name: str, files: dict) -> None:
     importlib.invalidate_caches()
 
 
+def _yaml_param(items) -> str:
+    body = "description: generated\nvalues:\n"
+    for d, v in items:
+        x = None if v is None else value_of_tok(v)
+        val = "null" if x is None else str(x).lower() if isinstance(x, bool) else str(x)
+        body += f"  {dt.date.fromordinal(d).isoformat()}:\n    value: {val}\n"
+    return body
+
+
+def param_dir(params) -> str:
+    """a directory of YAML parameter files"""
+    name = "ofvc14p_" + hashlib.sha1(hexjson(params).encode()).hexdigest()[:16]
+    _publish(name, {pn + ".yaml": _yaml_param(items) for pn, items in params})
+    return os.path.join(tmp_root(), name)
+
+
 class Ctx:
     """what is needed to turn class definitions and modifications into real objects"""
 
@@ -363,8 +422,12 @@ class Ctx:
         def formula(population, period, parameters):
             return real.ev(fdefs[fid], population, period, parameters)
 
-        formula._fid = fid
-        return formula
+        def formula2(population, period):          # the two-argument spelling (`co_argcount == 2`)
+            return real.ev(fdefs[fid], population, period, None)
+
+        f = formula2 if two_args(fdefs[fid], fid) else formula
+        f._fid = fid
+        return f
 
     def ev(self, e, pop, period, parameters):
         import numpy
@@ -380,7 +443,7 @@ class Ctx:
             a = self.ev(e[1], pop, period, parameters)
             b = self.ev(e[2], pop, period, parameters)
             return a + b if k == "+" else a - b if k == "-" else a * b
-        if k == "v":
+        if k in ("v", "w"):
             name, mode = e[1], e[2]
             tbs = pop.simulation.tax_benefit_system
             ref = tbs.get_variable(name, check_existence=True)
@@ -403,7 +466,7 @@ class Ctx:
             else:
                 p2 = period
             own = pop.entity.key
-            rk = ref.entity.key
+            rk = ref.entity.key if k == "v" else e[3]       # "w": the entity the formula's author had in mind
             call = (lambda q: q(name, p2, options=opts)) if opts else (lambda q: q(name, p2))
             if rk == own:
                 return call(pop).astype(float)
@@ -420,7 +483,10 @@ class Ctx:
         from openfisca_core.periods import DateUnit
         attrs = {}
         if cd["vt"] is not None:
-            attrs["value_type"] = {"float": float, "int": int, "bool": bool, "date": datetime.date}[cd["vt"]]
+            from openfisca_core.indexed_enums import Enum
+            attrs["value_type"] = {"float": float, "int": int, "bool": bool, "date": datetime.date, "enum": Enum, "str": str}[cd["vt"]]
+            if cd["vt"] == "enum":
+                attrs["possible_values"] = ofv_enum()
         if cd["default"] is not None:
             attrs["default_value"] = value_of_tok(cd["default"])
         if cd["entity"] is not None:
@@ -433,6 +499,8 @@ class Ctx:
             attrs["set_input"] = self.si[cd["si"]]
         for an, fid in formula_attr_names(cd["formulas"]):
             attrs[an] = self.make_formula(fid)
+        for k, x in (cd.get("meta") or {}).items():       # label / reference / documentation / unit
+            attrs[k] = tuple(x["t"]) if isinstance(x, dict) else x
         return attrs
 
     # -- operations
@@ -489,11 +557,7 @@ class Ctx:
             src += f"\n\nclass {cd['name']}(Variable):\n    locals().update(_CTX.class_attrs(_su.unhexjson({hexjson(cd)!r})))\n"
         files = {"__init__.py": "", "vars.py": src}
         for pn, items in params:
-            body = "description: generated\nvalues:\n"
-            for d, v in items:
-                val = "null" if v is None else (str(value_of_tok(v)) if not isinstance(value_of_tok(v), bool) else str(value_of_tok(v)).lower())
-                body += f"  {dt.date.fromordinal(d).isoformat()}:\n    value: {val}\n"
-            files[os.path.join("parameters", pn + ".yaml")] = body
+            files[os.path.join("parameters", pn + ".yaml")] = _yaml_param(items)
         _publish(pkg, files)
         return pkg
 
@@ -511,11 +575,19 @@ class Real(Ctx):
         import logging
         logging.getLogger("openfisca_core.taxbenefitsystems.tax_benefit_system").disabled = True   # refused extensions are logged
         base = taxbenefitsystems.TaxBenefitSystem([self.protos[k] for k in spec["ents"]])
-        data = {n: {"values": {dt.date.fromordinal(d).isoformat(): {"value": None if v is None else value_of_tok(v)}
-                               for d, v in items}} for n, items in spec["params"]}
-        base.parameters = ParameterNode("", data=data)
-        for cd in spec["vars"]:
-            base.add_variable(self.make_class(cd))
+        base.ofv_tag = "tag"         # a country-specific attribute: reforms see it through `Reform.__getattr__`
+        self.spelling = zlib.crc32(repr((spec["vars"], spec["params"])).encode())
+        if self.spelling % 3 == 0 and spec["params"]:
+            base.load_parameters(param_dir(spec["params"]))              # from YAML files
+        else:
+            data = {n: {"values": {dt.date.fromordinal(d).isoformat(): {"value": None if v is None else value_of_tok(v)}
+                                   for d, v in items}} for n, items in spec["params"]}
+            base.parameters = ParameterNode("", data=data)
+        if (self.spelling >> 4) % 2 == 0:
+            base.add_variables(*[self.make_class(cd) for cd in spec["vars"]])
+        else:
+            for cd in spec["vars"]:
+                base.add_variable(self.make_class(cd))
         self.systems = [base]
 
     # -- operations
@@ -541,6 +613,10 @@ class Real(Ctx):
                 src = self.systems[op[1]]
                 paths = [self.reform_path(n, mods) for n, mods in op[2]]
                 exts = [self.ext_package(n, cds, ps) for n, cds, ps in op[3]]
+                if len(paths) == 1 and (self.spelling >> 6) % 2 == 0:
+                    paths = paths[0]            # a YAML test may name one reform / extension as a plain string
+                if len(exts) == 1 and (self.spelling >> 7) % 2 == 0:
+                    exts = exts[0]
                 try:
                     t = test_runner._get_tax_benefit_system(src, paths, exts)
                 finally:
@@ -572,17 +648,26 @@ class Real(Ctx):
         own = next((str(j) for j in range(k + 1) if self.systems[j].variables.get(name) is v), "?")
         b = v.baseline_variable
         bl = "-" if b is None else next((str(j) for j in range(len(self.systems)) if self.systems[j].variables.get(name) is b), "x")
-        bad = [e.key for e in t.entities if e.get_variable(name) is not v]
+        bad = [e.key for e in t.entities_by_singular().values() if e.get_variable(name) is not v]
         via = "ok" if not bad else "!" + "^".join(bad)
-        vt = {float: "float", int: "int", bool: "bool", datetime.date: "date"}.get(v.value_type, "?")
+        from openfisca_core.indexed_enums import Enum
+        vt = {float: "float", int: "int", bool: "bool", datetime.date: "date", Enum: "enum", str: "str"}.get(v.value_type, "?")
         dp = str(getattr(v.definition_period, "value", v.definition_period))
         end = "-" if v.end is None else str(v.end.toordinal())
         si = "-" if v.set_input is None else next((n for n, f in self.si.items() if f is v.set_input), "?")
         fs = "^".join(f"{dt.date.fromisoformat(d).toordinal()}>{self.fml_tok(f)}" for d, f in v.formulas.items()) or "-"
-        ats = []
-        for q in qs:
+        f0 = v.get_formula()                    # no period: the oldest formula
+        ats = ["-" if f0 is None else self.fml_tok(f0)]
+        for i, q in enumerate(qs):
             d = dt.date.fromordinal(q)
-            f = v.get_formula(Period((DateUnit.DAY, Instant((d.year, d.month, d.day)), 1)))
+            if i % 4 == 1 and d.year >= 1000:
+                f = v.get_formula(d.isoformat())                  # a string
+            elif i % 4 == 2:
+                f = v.get_formula((d.year, d.month, d.day))       # a tuple: an instant, not a period
+            elif i % 4 == 3:
+                f = v.get_formula(d)                              # a date
+            else:
+                f = v.get_formula(Period((DateUnit.DAY, Instant((d.year, d.month, d.day)), 1)))
             ats.append("-" if f is None else self.fml_tok(f))
         return (f"{name}({own},{bl},{via},{vt},{tok_of_value(v.default_value)},{v.entity.key},{dp},{end},{si},"
                 f"{'T' if v.is_neutralized else 'F'},{fs},{'^'.join(ats)})")
@@ -592,14 +677,25 @@ class Real(Ctx):
         names = sorted(t.variables)
         earlier = [e for j in range(k) for e in self.systems[j].entities]
         ents = [f"{e.key}^{'T' if e._tax_benefit_system is t else 'F'}^{'F' if any(e is x for x in earlier) else 'T'}"
-                for e in t.entities]
+                f"^{'~'.join(sorted(t.get_variables(entity=e)))}" for e in t.entities]
+        assert t.get_variables() is t.variables
+        unbound = True
+        for proto in self.protos.values():          # the entity objects handed to the constructor stay unbound
+            try:
+                proto.get_variable("a")
+                unbound = False
+            except ValueError:
+                pass
+        root = t.base_tax_benefit_system
+        rlabel = next((str(j) for j in range(len(self.systems)) if self.systems[j] is root), "x")
         plabel = next((str(j) for j in range(k + 1) if self.systems[j].parameters is t.parameters), "?")
         reads = []
         for n in sorted(t.parameters.children):
             for q in qs:
                 val = t.parameters.children[n].get_at_instant(dt.date.fromordinal(q).isoformat())
                 reads.append(f"{n}@{q}={'-' if val is None else tok_of_value(val)}")
-        return ("n=" + ",".join(names) + "/e=" + ",".join(ents) + "/P=" + plabel + "/p=" + ",".join(reads)
+        return ("n=" + ",".join(names) + "/e=" + ",".join(ents) + "/P=" + plabel + f"/u={'T' if unbound else 'F'}/r={rlabel}"
+                + "/p=" + ",".join(reads)
                 + "/v=" + "+".join(self.var_tok(k, t, n, qs) for n in names))
 
     def snaps(self, qs):
@@ -631,17 +727,21 @@ class Real(Ctx):
                 out.append(f"input:{name}:ERR:{type(e).__name__}")
         for name, y, m in plan["requests"]:
             v = t.variables.get(name)
-            if v is None:
-                out.append("absent")
-                continue
-            dp = str(getattr(v.definition_period, "value", v.definition_period))
+            dp = "month" if v is None else str(getattr(v.definition_period, "value", v.definition_period))
             period = str(y) if dp == "year" else f"{y}-{m:02d}"
             try:
-                arr = sim.calculate(name, period)
+                arr = sim.calculate(name, period)            # (an unknown name: VariableNotFoundError)
+                if hasattr(arr, "decode"):
+                    arr = arr.decode()
                 out.append(";".join(tok_of_value(x) for x in arr))
             except Exception as e:
                 out.append("ERR:" + type(e).__name__)
         return out
+
+
+def meta_of(t):
+    """the descriptive attributes of every variable of a system"""
+    return {n: [v.label, v.reference, v.documentation, v.unit] for n, v in t.variables.items()}
 
 
 def stage_text(flag, prev, cur) -> str:
@@ -695,7 +795,7 @@ class Evaluator:
 
     def default(self, var):
         v = value_of_tok(var["default"])
-        if var["vt"] in ("int", "bool", "float") and not isinstance(v, dt.date):
+        if var["vt"] in ("int", "bool", "float") and not isinstance(v, (dt.date, str)) and not hasattr(v, "name"):
             v = self.cast(var, [v])[0]          # `default_array` is built with the variable's dtype
         return [v] * COUNT[var["entity"]]
 
@@ -751,11 +851,13 @@ class Evaluator:
         if k in ("+", "-", "*"):
             a, b = self.ev(e[1], ent, period), self.ev(e[2], ent, period)
             return [x + y if k == "+" else x - y if k == "-" else x * y for x, y in zip(a, b)]
-        if k == "v":
+        if k in ("v", "w"):
             name, mode = e[1], e[2]
             ref = self.rules.get(name)
             if ref is None:
                 raise CalcErr("unknown variable")
+            if k == "w" and ref["entity"] != e[3]:
+                raise CalcErr("defined for another entity")    # the formula asks the wrong population
             rdp = ref["dp"]
             y = period[1]
             if rdp == "eternity":
@@ -803,7 +905,7 @@ def evaluate(rules, params, fdefs, plan):
     for name, y, m in plan["requests"]:
         var = rules.get(name)
         if var is None:
-            out.append(("absent", False))
+            out.append(("ERR", False))          # an unknown name is refused
             continue
         period = ("year", y, 1) if var["dp"] == "year" else ("month", y, m)
         ev = Evaluator(rules, params, fdefs, inputs)
